@@ -27,8 +27,9 @@
    file is emitted with the values, indices and labels the reader must report.   *)
 EXTENDS Integers, Sequences, FiniteSets, TLC, Json
 
-CONSTANTS Modes,         \* subset of {"gen", "run"}
+CONSTANTS Modes,         \* subset of {"gen", "tab", "run"}
           MaxGenTables, MaxGenRows,
+          MaxTabItems,   \* mode "tab": items listed in the $TABLE record after ID TIME
           MaxTheta,      \* thetas 1..MaxTheta
           OmegaKinds,    \* subset of {"d1", "d2", "b2", "b2d1", "d1b2"}
           SigmaKinds,    \* subset of {"d1", "d2", "b2"}
@@ -134,6 +135,26 @@ ExtLines(f) ==
                        <<[k |-> "T", no |-> f.tabs[k].no], [k |-> "H"]>> \o [i \in 1..Len(rows) |-> [k |-> "R", row |-> rows[i]]] \o Tab(k + 1)
     IN Tab(1)
 
+\* ---- mode "tab": the column layout of a $TABLE file.  The record lists ID TIME and some of DV PRED RES WRES
+\* IPRED CWRES in any order; unless NOAPPEND is given NONMEM appends DV PRED RES WRES and writes an explicitly
+\* listed PRED / RES / WRES only there - an explicitly listed DV is written where it is listed AND in the
+\* appended block.  Values depend on (record, label) only, so both DV columns agree.
+TabItems == {"DV", "PRED", "RES", "WRES", "IPRED", "CWRES"}
+Appended == <<"DV", "PRED", "RES", "WRES">>
+Layout(listed, noappend) == IF noappend THEN listed
+                            ELSE SelectSeq(listed, LAMBDA l : l \notin {"PRED", "RES", "WRES"}) \o Appended
+LabelCode(l) == CASE l = "ID" -> 1 [] l = "TIME" -> 2 [] l = "DV" -> 3 [] l = "PRED" -> 4 [] l = "RES" -> 5
+                  [] l = "WRES" -> 6 [] l = "IPRED" -> 7 [] l = "CWRES" -> 8
+TabVal(r, l) == (IF LabelCode(l) % 2 = 0 THEN 0 - 1 ELSE 1) * (r + 4 * LabelCode(l))      \* never 0
+TabRows == 3
+TabLines(f) == LET lay == Layout(f.listed, f.noappend) IN
+    <<[k |-> "T", no |-> 1], [k |-> "H"]>>
+    \o [r \in 1..TabRows |-> [k |-> "R", row |-> [special |-> FALSE, n |-> r, vals |-> [c \in 1..Len(lay) |-> TabVal(r, lay[c])], obj |-> 0]]]
+TabLists == {<<"ID", "TIME">> \o q : q \in {q \in UNION {[1..n -> TabItems] : n \in 1..MaxTabItems} :
+                                                   \A i, j \in DOMAIN q : i # j => q[i] # q[j]}}
+\* where a label is found: the FIRST column with that label (both DV columns carry the same values)
+FirstCol(lay, l) == CHOOSE c \in 1..Len(lay) : lay[c] = l /\ \A d \in 1..(c - 1) : lay[d] # l
+
 \* ---------------------------------------------------------------- initial states: the files
 Cfgs == {c \in [nth : 1..MaxTheta, om : OmegaKinds, sg : SigmaKinds, fix : FixPats] : CfgOK(c)}
 GenTab(no) == [no : {no}, nrows : 1..MaxGenRows, rep : SUBSET (1..MaxGenRows)]
@@ -142,19 +163,24 @@ GenFiles == {f \in UNION {[1..n -> UNION {GenTab(no) : no \in 1..MaxGenTables}] 
 ExtTab(no) == [no : {no}, iters : IterSets, rows : RowSets]
 ExtFiles == UNION {{f \in [1..n -> UNION {ExtTab(no) : no \in 1..MaxSteps}] : \A k \in DOMAIN f : f[k].no = k} : n \in 1..MaxSteps}
 
-PhiVariants == 0..2      \* 0: ETA columns; 1: ETA columns and an individual without observations; 2: PHI columns
+\* 0: ETA columns; 1: ETA columns and an individual without observations (all zero); 2: PHI columns;
+\* 3: as 1, and another individual whose ETAs are all exactly zero but who has observations (ETC, OBJ non-zero)
+PhiVariants == 0..3
 Init == /\ pc = 1
         /\ acc = <<>>
         /\ \/ /\ "gen" \in Modes /\ mode = "gen"
               /\ \E tabs \in GenFiles : file = [tabs |-> tabs] /\ lines = GenLines([tabs |-> tabs])
+           \/ /\ "tab" \in Modes /\ mode = "tab"
+              /\ \E listed \in TabLists, na \in BOOLEAN :
+                    file = [listed |-> listed, noappend |-> na] /\ lines = TabLines([listed |-> listed, noappend |-> na])
            \/ /\ "run" \in Modes /\ mode = "run"
               /\ \E cfg \in Cfgs, tabs \in ExtFiles, pv \in PhiVariants :
                     \* an aborted earlier step followed by a later step does not occur; all steps log the same iterations
                     /\ \A k \in 1..(Len(tabs) - 1) : tabs[k].rows # "abort"
                     /\ \A k \in 1..Len(tabs) : tabs[k].iters = tabs[1].iters
-                    /\ (~AllPhi => pv = ((cfg.nth + Len(tabs) + (IF tabs[Len(tabs)].rows = "full" THEN 1 ELSE 0)) % 3))
+                    /\ (~AllPhi => pv = ((cfg.nth + Len(tabs) + (IF tabs[Len(tabs)].rows = "full" THEN 1 ELSE 0)) % 4))
                     /\ (~AllIters => tabs[1].iters = IF (cfg.nth + Len(tabs) + (IF cfg.sg = "d1" THEN 0 ELSE 1)) % 2 = 0 THEN "0" ELSE "0-5-10")
-                    /\ file = [cfg |-> cfg, tabs |-> tabs, phikind |-> IF pv = 2 THEN "PHI" ELSE "ETA", zero |-> pv = 1]
+                    /\ file = [cfg |-> cfg, tabs |-> tabs, phikind |-> IF pv = 2 THEN "PHI" ELSE "ETA", zero |-> pv \in {1, 3}, zeta |-> pv = 3]
                     /\ lines = ExtLines([cfg |-> cfg, tabs |-> tabs])
 
 \* ---------------------------------------------------------------- the reader: a line automaton
@@ -205,6 +231,12 @@ AutomatonIsReference ==
                 /\ acc[k].dropped = Cardinality(file.tabs[k].rep)
                 /\ Len(acc[k].rows) = file.tabs[k].nrows
                 /\ \A r \in 1..Len(acc[k].rows) : acc[k].rows[r].vals = [c \in 1..GenCols |-> GenVal(acc[k].no, r, c)]
+      ELSE IF mode = "tab"
+      THEN LET lay == Layout(file.listed, file.noappend) IN
+           /\ Len(acc) = 1 /\ acc[1].hdr = 1 /\ acc[1].dropped = 0 /\ Len(acc[1].rows) = TabRows
+           /\ \A l \in {lay[c] : c \in 1..Len(lay)} : \A r \in 1..TabRows : acc[1].rows[r].vals[FirstCol(lay, l)] = TabVal(r, l)
+           /\ (~file.noappend => SubSeq(lay, Len(lay) - 3, Len(lay)) = Appended)
+           /\ \A l \in {file.listed[c] : c \in 1..Len(file.listed)} : \E c \in 1..Len(lay) : lay[c] = l     \* nothing listed is lost
       ELSE /\ Len(acc) = Len(file.tabs)
            /\ \A k \in 1..Len(acc) :
                 LET rows == ExtRows(file.cfg, file.tabs[k]) IN
@@ -269,14 +301,16 @@ PhiObj(t, s) == 5 + 2 * s + t
 \* position of (i,j), i >= j, in the flattened triangle
 TriPos(i, j) == (i * (i - 1)) \div 2 + j
 PhiZero(s) == file.zero /\ s = 2               \* an individual without observations: all zero, not reported
+\* an individual WITH observations whose ETAs are all exactly zero (ETC and OBJ are not): must be reported
+EtaOf(t, s, i) == IF file.zeta /\ s = 3 THEN 0 ELSE EtaVal(t, s, i)
 \* EM methods write PHI(i) = MU_i + ETA(i) (docs/NONMEM.rst); the synthetic model has MU_1 = THETA(1), so the
 \* MU_1 of step k is the final estimate of THETA(1) in table k (THETA1 is the first column of the file)
 Mu(k, i) == IF file.phikind = "PHI" /\ i = 1 THEN RefFinal(ExtRows(file.cfg, file.tabs[k])).vals[1] ELSE 0
 PhiExpected(t) == LET n == Dim(file.cfg.om)
                       S == IF file.zero THEN <<1, 3>> ELSE <<1, 2, 3>> IN
     [q \in 1..Len(S) |-> [id |-> PhiIds[S[q]], obj |-> PhiObj(t, S[q]),
-                          eta |-> [i \in 1..n |-> EtaVal(t, S[q], i)],            \* the individual estimate to report
-                          raw |-> [i \in 1..n |-> EtaVal(t, S[q], i) + Mu(t, i)],  \* the ETA(i) / PHI(i) column as written
+                          eta |-> [i \in 1..n |-> EtaOf(t, S[q], i)],            \* the individual estimate to report
+                          raw |-> [i \in 1..n |-> EtaOf(t, S[q], i) + Mu(t, i)],  \* the ETA(i) / PHI(i) column as written
                           etc |-> [i \in 1..n |-> [j \in 1..n |-> IF i >= j THEN EtcVal(t, S[q], i, j) ELSE EtcVal(t, S[q], j, i)]]]]
 \* the flattened row as written, and the transcription of flattened_to_symmetric proved equal to the reference
 PhiFlat(t, s) == LET tr == TriSeq(Dim(file.cfg.om)) IN [k \in 1..Len(tr) |-> IF PhiZero(s) THEN 0 ELSE EtcVal(t, s, tr[k][1], tr[k][2])]
@@ -293,8 +327,13 @@ Emit ==
       THEN PrintT(<<"GEN", ToJson([tabs |-> [k \in 1..Len(file.tabs) |->
                         [no |-> file.tabs[k].no, nrows |-> file.tabs[k].nrows, rep |-> SetToSeq(file.tabs[k].rep),
                          rows |-> [r \in 1..file.tabs[k].nrows |-> [c \in 1..GenCols |-> GenVal(file.tabs[k].no, r, c)]]]]])>>)
+      ELSE IF mode = "tab"
+      THEN LET lay == Layout(file.listed, file.noappend) IN
+           PrintT(<<"TAB", ToJson([listed |-> file.listed, noappend |-> file.noappend, layout |-> lay,
+                                   rows |-> [r \in 1..TabRows |-> [c \in 1..Len(lay) |-> TabVal(r, lay[c])]],
+                                   bylabel |-> [l \in {lay[c] : c \in 1..Len(lay)} |-> [r \in 1..TabRows |-> TabVal(r, l)]]])>>)
       ELSE LET cfg == file.cfg IN
-           PrintT(<<"RUN", ToJson([cfg |-> cfg, phikind |-> file.phikind, zero |-> file.zero,
+           PrintT(<<"RUN", ToJson([cfg |-> cfg, phikind |-> file.phikind, zero |-> file.zero, zeta |-> file.zeta,
                       fileorder |-> [k \in 1..Len(FileOrder(cfg)) |-> ParOut(FileOrder(cfg)[k])],
                       reportorder |-> [k \in 1..Len(ReportOrder(cfg)) |-> ParOut(ReportOrder(cfg)[k])],
                       ext |-> LET pos == RepPos(cfg) IN [k \in 1..Len(file.tabs) |-> ExtOut(cfg, pos, file.tabs[k])],
@@ -306,7 +345,7 @@ Emit ==
                       phi |-> [k \in 1..Len(file.tabs) |->
                                  [flat |-> [s \in 1..3 |-> PhiFlat(file.tabs[k].no, s)],
                                   rows |-> [s \in 1..3 |-> [id |-> PhiIds[s], zero |-> PhiZero(s),
-                                                            eta |-> [i \in 1..Dim(cfg.om) |-> IF PhiZero(s) THEN 0 ELSE EtaVal(file.tabs[k].no, s, i) + Mu(k, i)],
+                                                            eta |-> [i \in 1..Dim(cfg.om) |-> IF PhiZero(s) THEN 0 ELSE EtaOf(file.tabs[k].no, s, i) + Mu(k, i)],
                                                             obj |-> IF PhiZero(s) THEN 0 ELSE PhiObj(file.tabs[k].no, s)]],
                                   expected |-> PhiExpected(file.tabs[k].no)]]])>>)
 =============================================================================
